@@ -23,7 +23,7 @@ from genjax import pjax as gpjax
 
 PROP = "C06"
 
-NOISE = ["unseeded", "unseeded_f", "seeded_other", "seeded_otherkey", "seeded_otheraval", "jit_other",
+NOISE = ["unseeded", "unseeded_f", "seeded_other", "seeded_otherkey", "seeded_otheraval", "jit_other", "kw_neighbour", "kw_neighbour",
          "fail_assess_missing", "fail_collision", "fail_vmap_site", "fail_jit_unseeded",
          "fail_exc_site", "fail_exc_gen", "fail_arity", "flush", "ctr", "flagflip"]
 FAULTS = {"fail_assess_missing": "usererr", "fail_collision": "usererr", "fail_vmap_site": "usererr",
@@ -42,9 +42,9 @@ def gen_case(rng, tier):
         body.append({"k": "site", "d": rng.choice(pf.REAL_CONT), "mode": rng.choice(["sample", "call"])})
     nsites_py = _py_statements(body)
     faulty = rng.random() < 0.7
-    nops = rng.randint(3, 8 if tier == "quick" else 12)
+    nops = rng.randint(6, 14 if tier == "quick" else 24)  # probes are cheap once the function is staged
     ops = []
-    cfgs = ["eager", "eager", "eager", "jit", "vmap"] + (["jitvmap"] if rng.random() < 0.3 else [])
+    cfgs = ["eager", "eager", "rebuilt", "rebuilt", "jit", "vmap"] + (["jitvmap"] if rng.random() < 0.3 else [])
     for i in range(nops):
         if rng.random() < 0.4:
             ops.append({"op": "probe", "cfg": rng.choice(cfgs)})
@@ -61,6 +61,12 @@ def gen_case(rng, tier):
             op["key"] = rng.randint(0, 10**6)
         if k == "ctr":
             op["v"] = rng.choice([0, rng.randint(0, 10**6), 2**31 - 2])
+        if k == "kw_neighbour":
+            # prefer a distribution the probe itself samples through keyword parameters
+            mine = _kw_dists(body)
+            op["d"] = rng.choice(mine) if mine and rng.random() < 0.8 else rng.choice(list(pf.KW_ALT))
+            op["alt"] = rng.randint(0, 1)
+            op["key"] = rng.randint(0, 10**6)
         if k == "fail_exc_site":
             op["at"] = rng.randrange(max(nsites_py, 1))
         if k == "fail_exc_gen":
@@ -69,6 +75,17 @@ def gen_case(rng, tier):
     ops.append({"op": "probe", "cfg": "eager"})
     return {"pf": body, "kw": rng.random() < 0.25, "key": rng.randint(0, 2**31 - 1),
             "acc0": round(rng.uniform(-1, 1), 3), "ops": ops}
+
+
+def _kw_dists(body):
+    out = []
+    for st in body:
+        if st["k"] == "site" and st.get("mode") == "kw":
+            out.append(st["d"])
+        for sub in ("body", "a", "b"):
+            if sub in st:
+                out += _kw_dists(st[sub])
+    return out
 
 
 def _py_statements(body):
@@ -202,6 +219,14 @@ def do_noise(op, case, f_plain, table):
         except Exception:
             pass
         return None
+    if k == "kw_neighbour":
+        # a neighbour uses one of the probe's distributions through the *other* keyword
+        # parameterisation (same shapes and dtypes): staging-cache neighbour at the sampler level
+        import genjax as _g
+        d = getattr(_g, op["d"])
+        for alt in (op["alt"], 1 - op["alt"], op["alt"]):
+            gpjax.seed(lambda a, _alt=alt: d.sample(**pf.KW_ALT[op["d"]][_alt](jnp.asarray(a, dtype=jnp.float32))))(key, case["acc0"])
+        return None
     ok, dup, bad = _gen_models()
     fired = None
     try:
@@ -260,7 +285,7 @@ def run_case(case):
     table = pf.dist_table()
     f_plain = pf.build_pf(case["pf"], table, kwargs_form=case["kw"])
     viol = []
-    probes = {"probe_points": 0, "leak_seen": 0, "cfg_eager": 0, "cfg_jit": 0, "cfg_vmap": 0, "cfg_jitvmap": 0,
+    probes = {"probe_points": 0, "leak_seen": 0, "cfg_eager": 0, "cfg_rebuilt": 0, "cfg_jit": 0, "cfg_vmap": 0, "cfg_jitvmap": 0,
               "rejected_by_interpreter": 0, "distinct_key_checked": 0, "discrete_skipped": 0}
     faults = {}
     g = golden(case)
@@ -279,7 +304,7 @@ def run_case(case):
 
     def compare(res, cfg, i):
         got = world.leaves(res)
-        if cfg == "eager":
+        if cfg in ("eager", "rebuilt"):
             same = len(got) == len(gold) and all(
                 a.dtype == b.dtype and a.shape == b.shape and a.tobytes() == b.tobytes() for a, b in zip(got, gold))
             if not same:
@@ -304,6 +329,9 @@ def run_case(case):
             try:
                 if cfg == "eager":
                     res = call_probe(seeded, case, key, case["kw"])
+                elif cfg == "rebuilt":
+                    # the same program as a fresh function object: staged anew (staging-cache state)
+                    res = call_probe(gpjax.seed(pf.build_pf(case["pf"], table, kwargs_form=case["kw"])), case, key, case["kw"])
                 elif cfg == "jit":
                     res = call_probe(jax.jit(gpjax.seed(f_plain)), case, key, case["kw"])
                 else:
@@ -321,7 +349,7 @@ def run_case(case):
                     res = jax.tree_util.tree_map(lambda x: x[pos], out)
                 compare(res, cfg, i)
             except Exception as e:
-                viol.append({"class": "history_dependence" if cfg == "eager" else "transform_instability",
+                viol.append({"class": "history_dependence" if cfg in ("eager", "rebuilt") else "transform_instability",
                              "clause": "probe_raises_" + cfg,
                              "message": f"{cfg} probe at step {i} after history {hist} raised {type(e).__name__}: {str(e)[:300]}",
                              "sig": {"cfg": cfg, "exception": type(e).__name__,
@@ -376,7 +404,7 @@ def shrink(case):
         c["kw"] = False
         yield c
     for i, op in enumerate(ops):
-        if op["op"] == "probe" and op["cfg"] != "eager":
+        if op["op"] == "probe" and op["cfg"] not in ("eager", "rebuilt"):
             c = copy.deepcopy(case)
             c["ops"][i]["cfg"] = "eager"
             yield c
